@@ -123,6 +123,8 @@ var varRules = [][]string{
 	{"include=(ab/cd)"},
 	{"either=1"},
 	{"int", "le=100"},
+	{"required", "", "to=1~3"}, // an empty rule among the rules is skipped
+	{"", "", "le=2", ""},
 }
 
 var varVals = []func() interface{}{
